@@ -2,7 +2,8 @@
    Pinned statements, `exact` proofs, Print Assumptions, and Examples showing that hypotheses are satisfiable. *)
 From PV Require Import Base.MachineInt Model.Znx Model.Limbs Model.LimbsBig Model.Flat Model.Ring Model.DftAbs
   Model.C05Cnv Model.C05Spec Model.C05Core.
-From PV Require Import Proofs.C07Dft Proofs.C07Ring Proofs.C05Cnv Proofs.C05Core Proofs.C05Norm.
+From PV Require Import Proofs.C07Dft Proofs.C07Ring Proofs.C05Cnv Proofs.C05Core Proofs.C05Norm Proofs.C05NormNtt Proofs.C05Trunc.
+From PV Require Model.Gadget Model.GadgetSpec Model.C05Relin Proofs.GadgetNorm Proofs.C03Phase Proofs.C05Relin Proofs.C05RelinPhase.
 Open Scope Z_scope.
 
 (* ====================================================================================================== *)
@@ -428,16 +429,209 @@ Theorem C05_relinearize_phase_partial : forall n P b (T1 T2 : list plimbs) (k1 k
 Proof. exact phase_split. Qed.
 Print Assumptions C05_relinearize_phase_partial.
 
-(* ------------------------------------------------------------------------------------------------------ *)
-(* Not proved here (full statement kept as a definition): relinearisation itself is not modelled (gglwe_product_dft belongs to C03);
-   with `keyswitch_phase` (C03) as hypothesis the full statement is *)
-Definition C05_relinearize_phase_full : Prop :=
-  forall (n : nat) (P b : Z) (ks : list limbs -> list limbs) (relin : list limbs -> list limbs)
-         (T1 T2 : list limbs) (k1 k2 : list (list Z)) (Eks Kks : list Z),
-  length T1 = length k1 ->
-  (* keyswitch_phase (C03): the key-switch of the s_i s_j columns decrypts under s to their phase under s (x) s, up to E_ks *)
-  phase n P b (ks T2) k1 = padd (padd (phase n P b T2 k2) Eks) (pscale (2 ^ P) Kks) ->
-  (* relin = the model of glwe_tensor_relinearize (not written): T1 + ks(T2), normalised column by column *)
-  exists En Kn : list Z,
-  phase n P b (relin (T1 ++ T2)) k1 =
-  padd (padd (phase n P b (T1 ++ T2) (k1 ++ k2)) (padd Eks En)) (pscale (2 ^ P) (padd Kks Kn)).
+(* ---- the same discharge for the NTT120 family (i128 accumulator), from C08's width-128 theorems (Props/C08Wide.v) ---- *)
+Theorem C05_normalize_value_ok_ntt120 : forall (n rsz dsz : nat) (P b lo : Z),
+  1 <= b <= 62 -> zn rsz * b + zn dsz * b + Z.abs lo <= P ->
+  forall D, wfl n D -> length D = dsz -> dom126 D ->
+  length (eps128 n rsz P b lo D) = n /\ length (kap128 n rsz P b lo D) = n /\
+  pval n P b (big_nrm false n rsz b b lo D) =
+    padd (padd (pval n (P + lo) b D) (eps128 n rsz P b lo D)) (pscale (2 ^ P) (kap128 n rsz P b lo D)) /\
+  forall c, Z.abs (nth c (eps128 n rsz P b lo D) 0) <= 2 ^ (P - zn rsz * b).
+Proof. exact normalize_value_ok_ntt120. Qed.
+Print Assumptions C05_normalize_value_ok_ntt120.
+
+Theorem C05_tensor_phase_ntt120 :
+  forall (n rsz dsz hi cols asz bsz : nat) (P b lo : Z) (A B : list plimbs) (sigma : nat * nat -> list Z),
+  1 <= b <= 62 -> zn rsz * b + zn dsz * b + Z.abs lo <= P ->
+  (forall i, (i < cols)%nat -> wfl n (colsel A i) /\ length (colsel A i) = asz) ->
+  (forall i, (i < cols)%nat -> wfl n (colsel B i) /\ length (colsel B i) = bsz) ->
+  (1 <= asz)%nat -> (1 <= bsz)%nat ->
+  (forall i, (i < cols)%nat -> dom126 (Cn false n dsz hi A B i i)) ->
+  (forall i j, (i < cols)%nat -> (j < cols)%nat -> i <> j -> dom126 (Pw false n dsz hi A B i j)) ->
+  (forall ij, length (sigma ij) = n) ->
+  forall res0 : list (list (list Z)), length res0 = length (tpairs cols) -> (forall r, In r res0 -> length r = rsz) ->
+  phase n P b (tensor_gen (cell_apply false n (big_nrm false n rsz b b lo) dsz hi A B) cols res0) (map sigma (tpairs cols)) =
+  padd (padd (plsum n (map (fun ij => pmul (Gm false n dsz hi P b lo A B ij) (sigma ij)) (tpairs cols)))
+             (plsum n (map (fun ij => pmul (Em false n dsz hi (eps128 n rsz P b lo) A B ij) (sigma ij)) (tpairs cols))))
+       (pscale (2 ^ P) (plsum n (map (fun ij => pmul (Km false n dsz hi (kap128 n rsz P b lo) A B ij) (sigma ij)) (tpairs cols))))
+  /\ forall ij c, (fst ij < cols)%nat -> (snd ij < cols)%nat ->
+     Z.abs (nth c (Em false n dsz hi (eps128 n rsz P b lo) A B ij) 0) <= (if Nat.eqb (fst ij) (snd ij) then 1 else 3) * 2 ^ (P - zn rsz * b).
+Proof. exact tensor_phase_ntt120. Qed.
+Print Assumptions C05_tensor_phase_ntt120.
+
+Theorem C05_mul_plain_phase_ntt120 :
+  forall (n rsz dsz hi : nat) (P b lo : Z) (B : plimbs) (A : list plimbs) (key : list (list Z)),
+  1 <= b <= 62 -> zn rsz * b + zn dsz * b + Z.abs lo <= P ->
+  wfl n B -> (1 <= length B)%nat ->
+  (forall a, In a A -> wfl n a /\ (1 <= length a)%nat /\ dom126 (cnv_apply false n dsz hi a B)) -> (forall k, In k key -> length k = n) ->
+  let Cf := fun a => cnv_apply false n dsz hi a B in
+  phase n P b (map (fun a => big_nrm false n rsz b b lo (Cf a)) A) key =
+  padd (padd (plsum n (map (fun q => pmul (pval n (P + lo) b (Cf (fst q))) (snd q)) (combine A key)))
+             (plsum n (map (fun q => pmul (eps128 n rsz P b lo (Cf (fst q))) (snd q)) (combine A key))))
+       (pscale (2 ^ P) (plsum n (map (fun q => pmul (kap128 n rsz P b lo (Cf (fst q))) (snd q)) (combine A key))))
+  /\ forall a c, In a A -> Z.abs (nth c (eps128 n rsz P b lo (Cf a)) 0) <= 2 ^ (P - zn rsz * b).
+Proof. exact mul_plain_phase_ntt120. Qed.
+Print Assumptions C05_mul_plain_phase_ntt120.
+
+(* ---- E_trunc: the limbs of the product that the convolution does not return ---- *)
+(* full product of the operand values = pairs below the window (a multiple of 2^P) + what cnv_apply_dft returns + the dropped pairs *)
+Theorem C05_prod_split : forall n P cnv ab (a b : plimbs), wfl n a -> forall hi dsz,
+  prod_full n P cnv ab a b = padd (padd (prod_low n P cnv ab hi a b) (prod_win n P cnv ab hi dsz a b)) (prod_high n P cnv ab hi dsz a b).
+Proof. exact prod_split. Qed.
+Print Assumptions C05_prod_split.
+
+Theorem C05_prod_full_is_product : forall n P cnv ab Qa Qb (a b : plimbs), wfl n a -> wfl n b -> 0 <= ab ->
+  zn (length a) * ab <= Qa -> zn (length b) * ab <= Qb -> Qa + Qb <= P + cnv ->
+  prod_full n P cnv ab a b = pscale (2 ^ (P + cnv - Qa - Qb)) (pmul (pval n Qa ab a) (pval n Qb ab b)).
+Proof. exact prod_full_is_product. Qed.
+Print Assumptions C05_prod_full_is_product.
+
+Theorem C05_convolution_truncation : forall fft n dsz hi P ab lo cnv Qa Qb (a b : plimbs) Da Db,
+  wfl n a -> wfl n b -> (1 <= length a)%nat -> (1 <= length b)%nat ->
+  zn hi * ab + lo = cnv - ab -> 0 <= lo -> 0 <= ab -> 0 <= P ->
+  zn (length a) * ab <= Qa -> zn (length b) * ab <= Qb -> Qa + Qb <= P + cnv ->
+  0 <= Da -> 0 <= Db ->
+  (forall u i, Z.abs (nth i (lim a u) 0) <= Da) -> (forall v i, Z.abs (nth i (lim b v) 0) <= Db) ->
+  exists L E, length L = n /\ length E = n /\
+    pscale (2 ^ (P + cnv - Qa - Qb)) (pmul (pval n Qa ab a) (pval n Qb ab b))
+    = padd (padd (pscale (2 ^ P) L) (pval n (P + lo) ab (cnv_apply fft n dsz hi a b))) E /\
+    forall k, Z.abs (nth k E 0) <= zn n * Da * Db * dropped_w P cnv ab (length a) (length b) (hi + dsz).
+Proof. exact convolution_truncation. Qed.
+Print Assumptions C05_convolution_truncation.
+Example C05_convolution_truncation_ex :
+  dropped_w 40 8 8 2 2 2 = 2 ^ 16 /\ dropped_w 40 8 8 2 2 3 = 0 /\
+  prod_full 2 40 8 8 [[1; 2]; [3; 4]] [[5; 6]; [-1; 2]] =
+  padd (padd (prod_low 2 40 8 8 0 [[1; 2]; [3; 4]] [[5; 6]; [-1; 2]]) (prod_win 2 40 8 8 0 2 [[1; 2]; [3; 4]] [[5; 6]; [-1; 2]]))
+       (prod_high 2 40 8 8 0 2 [[1; 2]; [3; 4]] [[5; 6]; [-1; 2]]).
+Proof. repeat split; reflexivity. Qed.
+
+(* ---- relinearisation: the model of glwe_tensor_relinearize (Model/C05Relin.v, on Gadget.gadget_product) and its phase ---- *)
+Section RelinProps.
+Import PV.Model.Gadget PV.Model.GadgetSpec PV.Model.C05Relin.
+(* the accumulator before the final normalisation: a key switch whose body is the whole (1, s) part of the tensor;
+   `keyswitch_phase` = C03's hypothesis on the key rows (key_rows_ok) *)
+Theorem C05_relinearize_internal_phase :
+  forall (P b : Z) (n pairs cols msize a_size dsize dnum : nat) (T : cols_t) (K : pmat) (Sk s_in : nat -> list Z) (e I : nat -> nat -> list Z),
+  wf_cols n (cols + pairs) a_size T -> wf_pmat_in n (dnum * pairs) (msize * cols) K ->
+  (1 <= dsize)%nat -> (dsize - 2 <= msize)%nat ->
+  (forall co, length (Sk co) = n) -> (forall ci, length (s_in ci) = n) ->
+  (forall row ci, length (e row ci) = n) -> (forall row ci, length (I row ci) = n) ->
+  0 <= b -> Z.of_nat msize * b <= P -> Z.of_nat dnum * Z.of_nat dsize * b <= P ->
+  key_rows_ok P b n pairs cols msize dsize dnum K Sk s_in e I ->
+  exists big, relinearize_internal n cols T a_size dsize dnum msize K = Some big /\
+    wf_cols n cols msize big /\
+    phase_f P b n cols msize (limbs_of big) Sk
+    = padd (padd (padd (GadgetSpec.psumf n (fun co => pmul (GadgetSpec.pval P b n (acol n T co) (Nat.min msize a_size)) (Sk co)) cols)
+                       (GadgetSpec.psumf n (fun ci => pmul (pval_used P b n a_size dsize dnum (acol n (skipn cols T)) ci) (s_in ci)) pairs))
+                 (gadget_err P b n pairs cols msize dsize dnum (acol n (skipn cols T)) K Sk e))
+           (Gadget.pscale (2 ^ P) (gadget_int b n pairs cols msize dsize dnum (acol n (skipn cols T)) K Sk I)).
+Proof. exact Proofs.C05Relin.relinearize_internal_phase. Qed.
+Print Assumptions C05_relinearize_internal_phase.
+
+(* glwe_tensor_relinearize (tensor radix = key radix b, result radix rb): phase under s of the result; the per-column
+   normalisation fact is a hypothesis here and discharged for FFT64 below *)
+Theorem C05_relinearize_phase :
+  forall (be P b rb : Z) (n pairs msize a_size res_size dsize dnum : nat) (T : cols_t) (K : pmat) (sk : list (list Z))
+         (s_in : nat -> list Z) (e I : nat -> nat -> list Z) (Sb : Z),
+  wf_cols n (S (length sk) + pairs) a_size T -> wf_pmat_in n (dnum * pairs) (msize * S (length sk)) K ->
+  (1 <= n)%nat -> (1 <= dsize)%nat -> (dsize - 2 <= msize)%nat ->
+  (forall s, In s sk -> length s = n) -> (forall s, In s sk -> pnorm s <= Sb) ->
+  (forall ci, length (s_in ci) = n) -> (forall row ci, length (e row ci) = n) -> (forall row ci, length (I row ci) = n) ->
+  0 <= b -> Z.of_nat msize * b <= P -> Z.of_nat dnum * Z.of_nat dsize * b <= P ->
+  key_rows_ok P b n pairs (S (length sk)) msize dsize dnum K (sk_ext n sk) s_in e I ->
+  (forall big, relinearize_internal n (S (length sk)) T a_size dsize dnum msize K = Some big ->
+     forall co, (co < S (length sk))%nat -> Proofs.GadgetNorm.normalize_value_ok (wbig be) P n rb b res_size (col big co)) ->
+  exists res R Itot,
+    glwe_relinearize be n b b rb (length sk) a_size res_size dsize dnum msize T K = Some res /\
+    wf_cols n (S (length sk)) res_size res /\ length R = n /\ length Itot = n /\
+    phase_val P rb n sk res
+    = padd (padd (padd (padd (GadgetSpec.psumf n (fun co => pmul (GadgetSpec.pval P b n (acol n T co) (Nat.min msize a_size)) (sk_ext n sk co)) (S (length sk)))
+                             (GadgetSpec.psumf n (fun ci => pmul (pval_used P b n a_size dsize dnum (acol n (skipn (S (length sk)) T)) ci) (s_in ci)) pairs))
+                       (gadget_err P b n pairs (S (length sk)) msize dsize dnum (acol n (skipn (S (length sk)) T)) K (sk_ext n sk) e))
+                 R)
+           (Gadget.pscale (2 ^ P) Itot) /\
+    pnorm R <= (1 + Z.of_nat (length sk) * Z.of_nat n * Sb) * 2 ^ (P - Z.of_nat res_size * rb).
+Proof. exact Proofs.C05Relin.relinearize_phase_final. Qed.
+Print Assumptions C05_relinearize_phase.
+
+(* explicit envelope of the key-switch error of the relinearisation for dsize <= 2 (C03's gadget bound) *)
+Theorem C05_relinearize_noise_bound :
+  forall (P b : Z) (n pairs cols msize a_size dsize dnum : nat) (T : cols_t) (K : pmat) (Sk : nat -> list Z) (e : nat -> nat -> list Z) (D B : Z),
+  wf_cols n (cols + pairs) a_size T -> (forall co, length (Sk co) = n) -> (forall row ci, length (e row ci) = n) ->
+  (dsize <= 2)%nat -> 0 <= B ->
+  (forall ci l, pnorm (acol n (skipn cols T) ci l) <= D) -> (forall row ci, pnorm (e row ci) <= B) ->
+  pnorm (gadget_err P b n pairs cols msize dsize dnum (acol n (skipn cols T)) K Sk e)
+  <= Z.of_nat dnum * Z.of_nat pairs * Z.of_nat n * (D * zsum (fun t => 2 ^ (Z.of_nat t * b)) dsize) * B.
+Proof. exact Proofs.C05Relin.relinearize_noise_bound. Qed.
+Print Assumptions C05_relinearize_noise_bound.
+
+(* when the key has at least as many limbs / digits as the tensor, the two sums are the phase of the whole tensor under (1, s, s (x) s) *)
+Theorem C05_relin_sums_are_tensor_phase :
+  forall n P b cols pairs msize a_size dsize dnum (T : cols_t) (Sk s_in : nat -> list Z),
+  wf_cols n (cols + pairs) a_size T -> (a_size <= msize)%nat -> (a_size <= dnum * dsize)%nat ->
+  (forall co, length (Sk co) = n) -> (forall ci, length (s_in ci) = n) ->
+  padd (GadgetSpec.psumf n (fun co => pmul (GadgetSpec.pval P b n (acol n T co) (Nat.min msize a_size)) (Sk co)) cols)
+       (GadgetSpec.psumf n (fun ci => pmul (pval_used P b n a_size dsize dnum (acol n (skipn cols T)) ci) (s_in ci)) pairs)
+  = C05Spec.phase n P b T (map Sk (seq 0 cols) ++ map s_in (seq 0 pairs)).
+Proof. exact Proofs.C05RelinPhase.relin_sums_are_tensor_phase. Qed.
+Print Assumptions C05_relin_sums_are_tensor_phase.
+
+(* C05_relinearize_phase_full: decrypt(relinearize(tensor(a, b))), FFT64 family, one radix b everywhere, no hypothesis on any normaliser left:
+     = tensor product of the two ciphertext vectors under sigma over exact products (Gm; C05_product_position, C05_convolution_truncation,
+       C05_tensor_resummation say what it is in terms of phase(a) phase(b))
+     + normalisation error of the tensor (Em: 1 resp. 3 units per column) + 2^P (integer)
+     + gadget error of the key switch (C03; C05_relinearize_noise_bound) + rounding R of the final normalisation + 2^P (integer) *)
+Theorem C05_relinearize_phase_full :
+  forall (be : Z) (n rsz dsz hi asz bsz pairs msize res_size dsize dnum : nat) (P b lo : Z) (A B : list plimbs)
+         (sigma : nat * nat -> list Z) (sk : list (list Z)) (s_in : nat -> list Z) (e I : nat -> nat -> list Z) (Sb : Z) (K : pmat)
+         (res0 : list (list (list Z))),
+  let cols := S (length sk) in
+  let T := tensor_gen (cell_apply true n (big_nrm true n rsz b b lo) dsz hi A B) cols res0 in
+  be <= 2 -> 1 <= b <= 62 -> (1 <= n)%nat ->
+  zn rsz * b + zn dsz * b + Z.abs lo <= P -> (Z.of_nat res_size + Z.of_nat msize) * b <= P -> Z.of_nat dnum * Z.of_nat dsize * b <= P ->
+  (forall i, (i < cols)%nat -> wfl n (colsel A i) /\ length (colsel A i) = asz) ->
+  (forall i, (i < cols)%nat -> wfl n (colsel B i) /\ length (colsel B i) = bsz) ->
+  (1 <= asz)%nat -> (1 <= bsz)%nat ->
+  (forall i, (i < cols)%nat -> dom62 (Cn true n dsz hi A B i i)) ->
+  (forall i j, (i < cols)%nat -> (j < cols)%nat -> i <> j -> dom62 (Pw true n dsz hi A B i j)) ->
+  (forall ij, length (sigma ij) = n) ->
+  length (tpairs cols) = (cols + pairs)%nat -> length res0 = length (tpairs cols) -> (forall r, In r res0 -> length r = rsz) ->
+  map sigma (tpairs cols) = map (sk_ext n sk) (seq 0 cols) ++ map s_in (seq 0 pairs) ->
+  wf_pmat_in n (dnum * pairs) (msize * cols) K -> (1 <= dsize)%nat -> (dsize - 2 <= msize)%nat ->
+  (rsz <= msize)%nat -> (rsz <= dnum * dsize)%nat ->
+  (forall s, In s sk -> length s = n) -> (forall s, In s sk -> pnorm s <= Sb) ->
+  (forall ci, length (s_in ci) = n) -> (forall row ci, length (e row ci) = n) -> (forall row ci, length (I row ci) = n) ->
+  key_rows_ok P b n pairs cols msize dsize dnum K (sk_ext n sk) s_in e I ->
+  (forall big, relinearize_internal n cols T rsz dsize dnum msize K = Some big ->
+     forall co j k, Z.abs (nth k (lim (col big co) j) 0) <= 2 ^ 62) ->
+  exists res R Itot,
+    glwe_relinearize be n b b b (length sk) rsz res_size dsize dnum msize T K = Some res /\
+    length R = n /\ length Itot = n /\
+    phase_val P b n sk res =
+    padd (padd (padd (padd (padd
+      (plsum n (map (fun ij => pmul (Gm true n dsz hi P b lo A B ij) (sigma ij)) (tpairs cols)))
+      (plsum n (map (fun ij => pmul (Em true n dsz hi (eps64 n rsz P b lo) A B ij) (sigma ij)) (tpairs cols))))
+      (C05Spec.pscale (2 ^ P) (plsum n (map (fun ij => pmul (Km true n dsz hi (kap64 n rsz P b lo) A B ij) (sigma ij)) (tpairs cols)))))
+      (gadget_err P b n pairs cols msize dsize dnum (acol n (skipn cols T)) K (sk_ext n sk) e))
+      R) (Gadget.pscale (2 ^ P) Itot) /\
+    pnorm R <= (1 + Z.of_nat (length sk) * Z.of_nat n * Sb) * 2 ^ (P - Z.of_nat res_size * b) /\
+    (forall ij c, (fst ij < cols)%nat -> (snd ij < cols)%nat ->
+       Z.abs (nth c (Em true n dsz hi (eps64 n rsz P b lo) A B ij) 0) <= (if Nat.eqb (fst ij) (snd ij) then 1 else 3) * 2 ^ (P - zn rsz * b)).
+Proof. exact Proofs.C05RelinPhase.relinearize_of_tensor_phase_fft64. Qed.
+Print Assumptions C05_relinearize_phase_full.
+
+(* the hypotheses of the relinearisation theorems are satisfiable (C03's example key: rank 1, one pair, n = 2), and the model runs *)
+Example C05_relinearize_ex :
+  let T : cols_t := [[1; 2]; [3; 4]] :: Proofs.C03Phase.ex3_ct in
+  (exists big, relinearize_internal 2 2 T 2 2 1 2 Proofs.C03Phase.ex3_K = Some big /\ wf_cols 2 2 2 big) /\
+  glwe_relinearize 1 2 4 4 4 1 2 2 2 1 2 T Proofs.C03Phase.ex3_K = Some [[[-5; -8]; [-5; -5]]; [[1; 2]; [3; 4]]].
+Proof.
+  intros T. split; [|reflexivity].
+  destruct Proofs.C03Phase.C03_hypotheses_satisfiable_lemma as (_ & HK & _ & _ & Hd & Hdr & HS & _ & Hsin & Hz & Hb & HP & HP2 & Hkey).
+  destruct (C05_relinearize_internal_phase 8 4 2 1 2 2 2 2 1 T Proofs.C03Phase.ex3_K (sk_ext 2 Proofs.C03Phase.ex3_sk)
+              Proofs.C03Phase.ex3_sin Proofs.C03Phase.ex3_zero Proofs.C03Phase.ex3_zero) as (big & E1 & E2 & _); try assumption.
+  - split; [reflexivity|]. intros [|[|[|ci]]] Hci; try lia; (split; [reflexivity|]); intros [|[|l]] Hl; try lia; reflexivity.
+  - exists big. split; assumption.
+Qed.
+End RelinProps.
+
